@@ -43,6 +43,9 @@ CHECKS = {
  "C12": ("fault_enumeration", "§9 C12",
    "For each generated composite / decorator scenario (initial cluster with orphans, stale and drifted children, then a parent edit, then a parent deletion) a fault-free reference run records every in-sync interaction; one run per (position, kind) injects exactly one failure there: API 404, 409 conflict, 409 already-exists, 410, 422, 500, connection error, applied-response-lost; hook 500, 429 with Retry-After, connection refused, stall past the timeout, truncated body. Oracle per single fault, classified from the request and its pre-state: non-benign failures of child writes, ControllerRevision writes, parent writes and hook calls are reported as a sync error and the item is re-queued; the documented benign races (404 on delete/update, already-exists on create, conflict on update) are not reported; a composite hook 429 is not an error and the parent is synced again; after a failed child write the sync still creates the other missing children and goes on to the parent status; in every run the worker finishes the sync, nothing panics, and after one further trigger the cluster equals the hook's desired state and stays quiet. On top: random multi-fault runs with watch breaks, 410-relists (tombstones), crashes and deletions during the gap.",
    "deterministic simulation, exhaustive single-fault enumeration per scenario + seeded multi-fault search"),
+ "C13": ("exploration", "§9 C13",
+   "Whole-system runs of composite (rolling and non-rolling, generateSelector on/off) and decorator controllers in which a share of the sync/finalize answers is the scenario's valid answer with one seeded grammar mutation: any status code, truncation at any byte, empty / non-JSON bodies, a flipped bit, null / scalar / incomplete entries in the children list, status missing / null / wrong type / hostile conditions, wrong types in a child's metadata, labels, annotations, ownerReferences, finalizers, kind, apiVersion, negative / huge / fractional / string numbers and flags, unknown fields, every JSON path replaced by every JSON type or deleted. Oracle: no worker panic (recovered panics are recorded through utilruntime.PanicHandlers, unrecovered ones kill the worker process and are attributed to the run), a rejection by construction (non-200, invalid JSON, wrong-typed labels) is reported as an error and followed by no child write in that sync, and after the hook returns to valid answers every live parent is synced again and the queues go quiet.",
+   "deterministic simulation with corrupted-message fault injection (grammar + byte level)"),
 }
 
 NA = {
